@@ -237,13 +237,17 @@ func (c *conn) Done() <-chan struct{} {
 // Err implements Conn.
 func (c *conn) Err() error {
 	if err := c.err.Load(); err != nil {
-		return err.(error)
+		return err.(connError).err
 	}
 	return nil
 }
 
-// fail sets a failure condition on the stream and closes it.
+// connError gives every stored failure the same concrete type: an atomic.Value panics when
+// values of different types are stored in it.
+type connError struct{ err error }
+
+// fail sets a failure condition on the stream and closes it. The first failure is kept.
 func (c *conn) fail(err error) {
-	c.err.Store(err)
+	c.err.CompareAndSwap(nil, connError{err})
 	c.stream.Close()
 }
